@@ -1,6 +1,6 @@
 (* C15 - Merge honours deletions exactly when they are newer, and never resurrects.
    Statements only.  Model: db/Merge.v. *)
-From KP Require Import Bytes Outcome Tree TreeFacts History Merge MergeProofs.
+From KP Require Import Bytes Outcome Tree TreeFacts History Merge MergeProofs MergeLookup MergeTermination MergeUuids.
 Local Open Scope Z_scope.
 
 (* the destination's tombstone list only grows, by tombstones of the source *)
@@ -23,3 +23,18 @@ Theorem c15_entry_deletion_rule : forall now st o loc pi pc e lm,
        Ok (mkDstate root1 (ds_deleted st ++ [o]) (ds_log st ++ [Ev EntryDeleted (d_uuid o)])))
   /\ (d_time o <= lm -> del_entry_step now st o = Ok (mkDstate (ds_root st) (ds_deleted st) (ds_log st ++ []))).
 Proof. exact entry_deletion_rule. Qed.
+
+(* a node the destination has tombstoned (and does not hold) is never re-created from the source *)
+Theorem c15_no_resurrection : forall now d s d' lg u,
+  merge now d s = Ok (d', lg) ->
+  deleted_contains (db_deleted d) u = true ->
+  ~ In u (tree_uuids (db_root d)) -> ~ In u (tree_uuids (db_root d')).
+Proof. exact no_resurrection. Qed.
+
+(* for every order (and multiplicity) of the source's tombstone list the deletion phase succeeds *)
+Theorem c15_deletions_total : forall now root deleted src_deleted,
+  uuids_unique (children_of root) ->
+  exists root' deleted' lg,
+    merge_deletions now root deleted src_deleted = Ok (root', deleted', lg)
+    /\ uuids_unique (children_of root') /\ is_group root' = is_group root.
+Proof. exact merge_deletions_ok. Qed.
